@@ -42,7 +42,7 @@ func execKDE(a []Tok) string {
 }
 
 func genC12(w *bufio.Writer, tier string, rng *rand.Rand) {
-	n := pick(tier, 1200, 30000)
+	n := pick(tier, 900, 20000)
 	for k := 0; k < n; k++ {
 		nx := 1 + rng.Intn(40)
 		if rng.Intn(3) == 0 {
@@ -83,7 +83,7 @@ func genC12(w *bufio.Writer, tier string, rng *rand.Rand) {
 		bmin, bmax := 0.0, 0.0
 		wide := false
 		mode := rng.Intn(4)
-		forceWide := rng.Intn(12) == 0 && h != 0
+		forceWide := rng.Intn(25) == 0 && h != 0
 		if forceWide {
 			// the far corner of the quantifier: very wide Gaussian kernel between two boundaries touching the data
 			kern, mode = "gauss", 3
@@ -138,7 +138,7 @@ func genC12(w *bufio.Writer, tier string, rng *rand.Rand) {
 					ws = "-"
 				}
 			}
-			qs = []float64{(bmin + bmax) / 2, bmin + (bmax-bmin)*rng.Float64(), math.Nextafter(bmax, math.Inf(-1))}
+			qs = []float64{bmin + (bmax-bmin)*rng.Float64(), math.Nextafter(bmax, math.Inf(-1))}
 		}
 		sort.Float64s(qs)
 		fmt.Fprintf(w, "kde %s %s %s %s %s %s %s\n", fmtFs(xs), ws, kern, fmtF(h), fmtF(bmin), fmtF(bmax), fmtFs(qs))
